@@ -21,10 +21,10 @@ ASSUMPTIONS = ['time.time() is non-decreasing across the runs compared',
 
 
 def check(ctx):
-    sched_rel.check_rel(ctx, {'REL-1', 'REL-2', 'REL-5'})
-    sched_worker.check_pub(ctx)
-    persist.check_merge_done(ctx)
-    sched_rel.check_topo(ctx)
+    ctx.run(sched_rel.check_rel, {'REL-1', 'REL-2', 'REL-5'})
+    ctx.run(sched_worker.check_pub)
+    ctx.run(persist.check_merge_done)
+    ctx.run(sched_rel.check_topo)
 
 
 from ..variants import sched as _v   # noqa: E402
